@@ -2,13 +2,17 @@ package c05
 
 import (
 	"context"
+	"errors"
+	"sync"
 	"testing"
 	"time"
 
 	"pgregory.net/rapid"
 
 	"go.opentelemetry.io/collector/component"
+	"go.opentelemetry.io/collector/consumer/consumererror"
 	"go.opentelemetry.io/collector/exporter/exporterhelper"
+	"go.opentelemetry.io/collector/verifharness/pgen"
 	"go.opentelemetry.io/collector/verifharness/pview"
 	"go.opentelemetry.io/collector/verifharness/sig"
 	"go.opentelemetry.io/collector/verifharness/vt"
@@ -23,6 +27,28 @@ import (
 type PScript struct {
 	Script
 	LingerUS int // how long the parked attempt stays in the backend after Shutdown was asked for
+	// Companion: a second request (item ids >= 1001) handed in once the first one is parked; the exporter then
+	// has two consumers.  Its first attempt is still inside the backend when Shutdown is called and is released
+	// ReleaseUS later, i.e. normally after the parked request's wait was interrupted, and ends as Outcome says.
+	Companion *Companion `json:",omitempty"`
+}
+
+// Companion is the second in-flight request of a shutdown-persist case.
+type Companion struct {
+	Payload   []byte
+	Outcome   string // ok | perm | transient (transient: interrupted by the shutdown as well, must come back too)
+	ReleaseUS int
+}
+
+const companionBase = 1001
+
+func isCompanion(v any) bool {
+	for _, it := range sig.Items(v) {
+		if it.ID >= companionBase {
+			return true
+		}
+	}
+	return false
 }
 
 var cP = vt.New("C05", "shutdown-persist")
@@ -73,6 +99,20 @@ func genP(t *rapid.T) PScript {
 	if !control {
 		s.Stop = &Stop{Kind: "shutdown", Mode: "wait", At: at, DelayUS: rapid.SampledFrom([]int{0, 0, 100, 1000, 3000}).Draw(t, "stop_delay_us")}
 		s.LingerUS = rapid.SampledFrom([]int{0, 0, 500, 3000}).Draw(t, "linger_us")
+		if rapid.IntRange(0, 2).Draw(t, "companion?") == 0 {
+			o := pgen.Structural()
+			o.MaxRes, o.MaxScope, o.MaxItems = 2, 2, 3
+			for try := 0; try < 4; try++ {
+				var next int64 = companionBase
+				b := sig.Gen(t, s.Signal, o, &next)
+				if next > companionBase {
+					s.Companion = &Companion{Payload: b,
+						Outcome:   rapid.SampledFrom([]string{"ok", "ok", "perm", "transient"}).Draw(t, "companion_outcome"),
+						ReleaseUS: rapid.SampledFrom([]int{2000, 5000, 10000}).Draw(t, "release_us")}
+					break
+				}
+			}
+		}
 	}
 	return s
 }
@@ -83,13 +123,13 @@ func runP(s PScript) (nontrivial bool, key string, f *vt.Finding) {
 	return nontrivial, key, f
 }
 
-func newQueued(s *Script, w *world) (*xh.Exporter, *vt.Finding) {
+func newQueued(s *Script, w *world, consumers int) (*xh.Exporter, *vt.Finding) {
 	cfg := s.Backoff.config()
 	if err := cfg.Validate(); err != nil {
 		return nil, vt.Failf("harness/config", "generated retry config rejected: %v", err)
 	}
 	qcfg := exporterhelper.NewDefaultQueueConfig()
-	qcfg.NumConsumers = 1
+	qcfg.NumConsumers = consumers
 	qcfg.QueueSize = 100
 	id := storageID
 	qcfg.StorageID = &id
@@ -114,7 +154,38 @@ func runPInner(s *PScript) (bool, *vt.Finding) {
 	// ---- incarnation 1
 	w1 := newWorld(&s.Script)
 	w1.linger = time.Duration(s.LingerUS) * time.Microsecond
-	exp1, f := newQueued(&s.Script, w1)
+	consumers := 1
+	comp := s.Companion
+	if s.Stop == nil {
+		comp = nil
+	}
+	var compMu sync.Mutex
+	compAttempts, compDelivered := 0, 0
+	compIn, compRelease := make(chan struct{}), make(chan struct{})
+	if comp != nil {
+		consumers = 2
+		w1.companion = func(v any) (bool, error) {
+			if !isCompanion(v) {
+				return false, nil
+			}
+			compMu.Lock()
+			compAttempts++
+			first := compAttempts == 1
+			compMu.Unlock()
+			if first {
+				close(compIn)
+				<-compRelease
+			}
+			switch comp.Outcome {
+			case "perm":
+				return true, consumererror.NewPermanent(errors.New("backend rejects the companion request"))
+			case "transient":
+				return true, errors.New("backend hiccup for the companion request")
+			}
+			return true, nil
+		}
+	}
+	exp1, f := newQueued(&s.Script, w1, consumers)
 	if f != nil {
 		return false, f
 	}
@@ -141,11 +212,33 @@ func runPInner(s *PScript) (bool, *vt.Finding) {
 		}
 	}
 	tr.stopped = parked
-	sd0 := time.Now()
-	if err := exp1.Shutdown(bg); err != nil {
-		return false, vt.Failf("shutdown-error", "Shutdown: %v", err)
+	var sdTook time.Duration
+	if comp != nil {
+		// second request: in flight (inside its attempt) while the first one sits in its back-off
+		if err := exp1.ConsumeBytes(bg, comp.Payload); err != nil {
+			return false, vt.Failf("harness/enqueue", "persistent queue refused the companion request: %v", err)
+		}
+		select {
+		case <-compIn:
+		case <-time.After(30 * time.Second):
+			return false, vt.Failf("harness/companion", "the companion request was not attempted within 30s")
+		}
+		sdErr := make(chan error, 1)
+		go func() { sdErr <- exp1.Shutdown(bg) }() // blocks until the companion's attempt is released
+		time.Sleep(time.Duration(comp.ReleaseUS) * time.Microsecond)
+		rel := time.Now()
+		close(compRelease)
+		if err := <-sdErr; err != nil {
+			return false, vt.Failf("shutdown-error", "Shutdown: %v", err)
+		}
+		sdTook = time.Since(rel)
+	} else {
+		sd0 := time.Now()
+		if err := exp1.Shutdown(bg); err != nil {
+			return false, vt.Failf("shutdown-error", "Shutdown: %v", err)
+		}
+		sdTook = time.Since(sd0)
 	}
-	sdTook := time.Since(sd0)
 	n1 := w1.count()
 	lo := time.Duration(0)
 	if parked {
@@ -161,7 +254,24 @@ func runPInner(s *PScript) (bool, *vt.Finding) {
 	// ---- incarnation 2: same storage, healthy backend
 	s2 := Script{Signal: s.Signal, Payload: s.Payload, Backoff: s.Backoff, TimeoutMS: s.TimeoutMS}
 	w2 := newWorld(&s2)
-	exp2, f := newQueued(&s2, w2)
+	if comp != nil {
+		w2.companion = func(v any) (bool, error) {
+			if !isCompanion(v) {
+				return false, nil
+			}
+			compMu.Lock()
+			compDelivered++
+			compMu.Unlock()
+			return true, nil
+		}
+	}
+	compBack := func() int {
+		compMu.Lock()
+		defer compMu.Unlock()
+		return compDelivered
+	}
+	compPending := comp != nil && comp.Outcome == "transient"
+	exp2, f := newQueued(&s2, w2, consumers)
 	if f != nil {
 		return false, f
 	}
@@ -171,6 +281,9 @@ func runPInner(s *PScript) (bool, *vt.Finding) {
 	if parked {
 		select {
 		case <-w2.first:
+			for limit := time.Now().Add(10 * time.Second); compPending && compBack() == 0 && time.Now().Before(limit); {
+				time.Sleep(500 * time.Microsecond)
+			}
 			// leave a little room for a duplicate to show up
 			time.Sleep(2 * time.Millisecond)
 		case <-time.After(10 * time.Second):
@@ -200,6 +313,17 @@ func runPInner(s *PScript) (bool, *vt.Finding) {
 		cP.Class("control:verdict-then-clean-shutdown", "signal:"+s.Signal)
 		return false, nil
 	}
+	if comp != nil {
+		switch back := compBack(); {
+		case compPending && back == 0:
+			return true, vt.Failf("shutdown-lost-request", "the companion request failed transiently while the exporter was shutting down (its retry was interrupted), yet the next incarnation did not deliver it")
+		case !compPending && back > 0:
+			return true, vt.Failf("redelivered-after-verdict", "the companion request ended with a final outcome (%s) during shutdown, yet the next incarnation delivered it again", comp.Outcome)
+		}
+	}
+	if len(re) == 0 && comp != nil {
+		return true, vt.Failf("shutdown-lost-request/other-request-in-flight", "Shutdown interrupted the retry wait (>= %v) after failed attempt %d of one request while another request was inside an attempt that ended (%s) %dus after Shutdown was called; the next incarnation on the same storage did not deliver the interrupted request (stored values: %d)", lo, s.Stop.At, comp.Outcome, comp.ReleaseUS, len(store.values()))
+	}
 	if len(re) == 0 {
 		return true, vt.Failf("shutdown-lost-request", "Shutdown interrupted the retry wait (>= %v) after failed attempt %d (%d attempts made); the next incarnation on the same storage did not deliver the request (stored values: %d)", lo, s.Stop.At, n1, len(store.values()))
 	}
@@ -227,6 +351,9 @@ func runPInner(s *PScript) (bool, *vt.Finding) {
 		"signal:"+s.Signal, "redelivered", "parked-at:"+string(rune('0'+s.Stop.At)))
 	if len(re) > 1 {
 		cP.Class("redelivery:more-than-once")
+	}
+	if comp != nil {
+		cP.Class("second-request-in-attempt-at-shutdown:" + comp.Outcome)
 	}
 	if s.LingerUS > s.Stop.DelayUS {
 		cP.Class("shutdown-lands-inside-attempt")
